@@ -34,6 +34,8 @@ def gen_case(rng):
         "store": in_store, "cache": in_cache, "hash_name": hash_name, "used": used,
         "used_form": rng.choice(["list", "set", "tuple", "iter", "generator"]), "shallow": rng.random() < 0.45, "dry": rng.random() < 0.3, "local": rng.random() < 0.6,
         "read_only": rng.random() < 0.08,
+        # leftovers of DVC 1.x next to directory objects of a local store (`<oid>.unpacked/`): gc removes them with the object
+        "unpacked": [o for o in in_store if o.endswith(".dir") and rng.random() < 0.4],
     }, uni
 
 
@@ -57,9 +59,15 @@ def run_impl(ctx, case, uni):
     if case["cache"] is not None:
         cache = stores.make_odb(os.path.join(root, "cache"), local=True, hash_name=case["hash_name"])
         stores.populate(cache, uni, case["cache"])
+    for o in case.get("unpacked", []) if case["local"] else []:
+        d = os.path.join(odb.path, o[:2], o[2:] + ".unpacked")
+        os.makedirs(d, exist_ok=True)
+        with open(os.path.join(d, "f"), "w") as f:
+            f.write("x")
     if case["read_only"]:
         odb.read_only = True
     before = stores.listing_of(odb.path)
+    extras_before = _extras(odb.path)
     used = [stores.hi(v, n) for n, v in case["used"]]
     # `used` is declared Iterable[HashInfo]: lists, sets, tuples and one-shot iterators / generators are all valid
     form = case.get("used_form", "list")
@@ -67,9 +75,21 @@ def run_impl(ctx, case, uni):
     kind, val = safe_call(lambda: gc(odb, used, cache_odb=cache, shallow=case["shallow"], dry=case["dry"]),
                           expected=(ObjectDBPermissionError, FileNotFoundError))
     after = stores.listing_of(odb.path)
+    run_impl.extras = (extras_before, _extras(odb.path))
     if kind == "ok":
         return {"removed": val, "store": after}, before
     return {"err": val, "store": after}, before
+
+
+def _extras(path):
+    """everything under the store directory that is not an object file: `<oid>.unpacked/` leftovers"""
+    out = []
+    for dp, dns, fns in os.walk(path):
+        for dn in dns:
+            if dn.endswith(".unpacked"):
+                rel = os.path.relpath(os.path.join(dp, dn), path)
+                out.append(rel.replace(os.sep, "")[: -len(".unpacked")])
+    return sorted(out)
 
 
 def expected(case, uni, before):
@@ -101,9 +121,10 @@ def check(ctx, case, uni, ans):
     ctx.corr("Status.gc~gc.gc", case, impl, model)
     ctx.count("outcome:" + ("ok" if "removed" in impl else impl["err"]))
     # oracle
+    ex_before, ex_after = run_impl.extras
     if case["read_only"]:
-        ctx.oracle(impl.get("err") == "ObjectDBPermissionError" and impl["store"] == before, case,
-                   {"why": "read-only store not refused / modified", "impl": impl})
+        ctx.oracle(impl.get("err") == "ObjectDBPermissionError" and impl["store"] == before and ex_after == ex_before, case,
+                   {"why": "read-only store not refused / modified", "impl": impl, "unpacked_before": ex_before, "unpacked_after": ex_after})
         return
     keep = expected(case, uni, before)
     if keep == "FileNotFoundError":
@@ -116,6 +137,12 @@ def check(ctx, case, uni, ans):
     ok = impl.get("removed") == len(unused) and impl["store"] == exp_after
     ctx.oracle(ok, case, {"why": "gc did not remove exactly the unused objects", "impl": impl,
                           "expected_removed": len(unused), "expected_store": exp_after})
+    if ex_before:
+        ctx.count("unpacked_leftovers")
+    # a dry run removes nothing at all; a real run takes the leftover along with an unused directory object only
+    exp_extras = ex_before if case["dry"] else [o for o in ex_before if o in keep]
+    ctx.oracle(ex_after == exp_extras, case, {"why": "leftover '<oid>.unpacked' directories: a dry run removed one, or a real run removed the one of a used object / kept the one of a removed object",
+                                              "unpacked_before": ex_before, "unpacked_after": ex_after, "expected": exp_extras})
     ctx.sample({"case": {k: case[k] for k in ("store", "used", "shallow", "dry", "local")}, "impl": impl})
 
 
